@@ -35,7 +35,9 @@ def run_case(ctx, case, api=None):
         return
     data, verdicts = built
     expected = AC.expected_regions(case, data, verdicts)
-    api = api or APIS[(case["pcm_seed"] >> 4) % len(APIS)]
+    import random as _random
+
+    api = api or APIS[_random.Random(case["pcm_seed"] ^ 0xA91).randrange(len(APIS))]  # independent of the single bits used below
     kw = AC.split_kwargs(case, long_names=bool(case["pcm_seed"] & 2))
     bps_ = case["width"] * case["channels"]
     total_ = len(data) // bps_
